@@ -6,6 +6,7 @@ exit 0 held (all obligations discharged; KNOWN-FINDING lines allowed)
 from __future__ import annotations
 
 import argparse
+import asyncio
 import concurrent.futures as cf
 import glob
 import hashlib
@@ -49,6 +50,16 @@ def top_key(top):
 # ---------------------------------------------------------------------------
 
 
+def _big_frame(fn, reg, top, tier):
+    return fn(reg, top, tier=tier)
+
+
+# CPython 3.12 keeps interpreter frames in 16 KB data-stack chunks that are mmap'ed/munmap'ed whenever the frame stack
+# crosses a chunk boundary; the engine's deep recursion can sit on such a boundary (20-100x slower generation in
+# forked workers).  One frame with a huge declared stack size makes CPython allocate a single big chunk up front.
+_big_frame.__code__ = _big_frame.__code__.replace(co_stacksize=150_000)
+
+
 def process_top(job):
     prop, key, tier, seed, inner_procs, timeout_ms = job
     from . import contracts as C
@@ -66,7 +77,7 @@ def process_top(job):
         custom = getattr(top, 'extra', {}).get('custom')
         if custom is not None:
             return custom(top, out, tier, seed)
-        res = vcgen.verify(C.REG, top, tier=tier)
+        res = _big_frame(vcgen.verify, C.REG, top, tier)
         out['gen_s'] = time.time() - t0
         out['paths'] = res.paths
         out['normal_paths'] = res.normal_paths
@@ -76,8 +87,28 @@ def process_top(job):
         out['used'] = sorted(res.used)
         out['feas_checks'] = res.feas_checks
         out['undecided'] = sorted(set(res.undecided))
-        results = solve.discharge_all(res.obligations, timeout_ms, procs=inner_procs, seed=seed, both=(tier == 'thorough'))
+        # contract kwarg solver_procs=1: discharge in-process (forking a solver pool costs seconds per entry, which
+        # dominates for families of many small entries)
+        results = solve.discharge_all(res.obligations, timeout_ms, procs=getattr(top, 'extra', {}).get('solver_procs', inner_procs), seed=seed, both=(tier == 'thorough'))
+        xc = out['xcheck'] = {'samples': 0, 'held': 0, 'violated': 0, 'precondition-false': 0, 'error': 0, 'no-model': 0, 'failed': []}
         for ob, r in zip(res.obligations, results):
+            if ob.kind == 'xcheck':
+                # CPython cross-check: the model of a completed path is run through the real function
+                xc['samples'] += 1
+                if r.get('status') != 'proved' or 'cex' not in r:
+                    xc['no-model'] += 1
+                    continue
+                try:
+                    rr = R.run_native(top, C.REG, r['cex'])
+                except (Exception, asyncio.CancelledError) as ex:  # noqa: BLE001
+                    rr = {'outcome': 'error', 'detail': repr(ex)}
+                oc = rr.get('outcome', 'error')
+                if oc == 'violated' and all(str(f).startswith(('exc#AttributeError', 'exc#TypeError', 'exc#NameError')) for f in rr.get('failed') or ['x']):
+                    oc = 'error'  # only witnesses the stub environment (same rule as replay.confirms)
+                xc[oc] = xc.get(oc, 0) + 1
+                if oc == 'violated' and len(xc['failed']) < 3:
+                    xc['failed'].append({'failed': rr.get('failed'), 'state': R.to_jsonable(r['cex']), 'exception': rr.get('exception')})
+                continue
             e = out['names'].setdefault(ob.name, {'kind': ob.kind, 'n': 0, 'proved': 0, 'refuted': 0, 'unknown': 0, 'vacuous': 0, 'disagree': 0, 'time': 0.0, 'max_time': 0.0, 'backends': {}, 'abstracted': False, 'witnesses': [], 'details': [], 'expect_sat': ob.expect_sat, 'loc': ob.loc})
             e['n'] += 1
             st = r['status']
@@ -104,7 +135,7 @@ def process_top(job):
                 for label, stt in tries:
                     try:
                         rr = R.run_native(top, C.REG, stt)
-                    except Exception as ex:  # noqa: BLE001
+                    except (Exception, asyncio.CancelledError) as ex:  # noqa: BLE001
                         rr = {'outcome': 'error', 'detail': repr(ex)}
                     rr['from'] = label
                     rr['confirms'] = R.confirms(ob.name, ob.kind, ob.info, rr)
@@ -112,7 +143,7 @@ def process_top(job):
                     if rr['confirms']:
                         w['replay_state'] = stt
                         break
-                if not w['replay'].get('confirms') and 'state' in w and len(e['witnesses']) < 2:
+                if not w['replay'].get('confirms') and 'state' in w and len(e['witnesses']) < 2 and not getattr(top, 'extra', {}).get('no_native_search'):
                     try:
                         hit = R.search_near(top, C.REG, w['state'], lambda rr_: R.confirms(ob.name, ob.kind, ob.info, rr_))
                     except Exception:  # noqa: BLE001
@@ -183,6 +214,9 @@ def safe(name):
 
 
 def main():
+    import logging
+
+    logging.disable(logging.CRITICAL)  # native replays / cross-check runs execute real bumble code: keep its log output out of the report
     ap = argparse.ArgumentParser()
     ap.add_argument('prop')
     ap.add_argument('--tier', default=os.environ.get('VERIF_TIER') or 'quick')
@@ -244,8 +278,15 @@ def main():
     discharged_names = []
     bounded = []
     os.makedirs(os.path.join(HERE, 'replays', prop), exist_ok=True)
+    xcheck = {'samples': 0, 'held': 0, 'violated': 0, 'precondition-false': 0, 'error': 0, 'no-model': 0}
+    xcheck_failed = []
     for out in results:
         key = out['key']
+        for k_, v_ in (out.get('xcheck') or {}).items():
+            if k_ == 'failed':
+                xcheck_failed.extend({'entry': key, **f} for f in v_)
+            else:
+                xcheck[k_] = xcheck.get(k_, 0) + v_
         if out.get('error'):
             errors.append(f'{key}: {out["error"].strip().splitlines()[-1]}')
             if a.v:
@@ -339,6 +380,10 @@ def main():
         code = 2
     if violations:
         code = 1
+    if xcheck['samples']:
+        print(f'cross-check (CPython): samples={xcheck["samples"]} held={xcheck["held"]} violated={xcheck["violated"]} not-rebuilt={xcheck["precondition-false"] + xcheck["error"] + xcheck["no-model"]}')
+        for f in xcheck_failed[:5]:
+            print(f'    cross-check violated: {f["entry"]}: {f.get("failed")}')
     print(f'{prop}: obligations={n_obl} discharged={n_dis} known_findings={n_known} violations={len(violations)} undecided={len(undecided)} errors={len(errors)} wall={wall:.1f}s exit={code}')
 
     if a.update_lock and code == 0:
@@ -365,6 +410,7 @@ def main():
                 'covers': covers,
                 'undecided': undecided,
                 'checker_errors': errors,
+                'cross_check': dict(xcheck, what='CPython cross-check: for up to PYVC_XCHECK (default 6) completed paths per entry a model of the path condition is concretised into real objects, the real function is run under CPython and the contract clauses are evaluated natively; held = clauses true natively, precondition-false/error = the model could not be rebuilt faithfully as real objects (not counted), violated = the native run contradicts a clause', violated_examples=xcheck_failed[:5]),
                 'explanation': 'every obligation is a verification condition generated from the AST of the function in /repo (re-read on this run) against its sidecar contract; discharged = proved unsat(pc and not goal) by z3 or cvc5',
             },
             'assumptions': GLOBAL_ASSUMPTIONS + prop_trusted(prop, tops),
@@ -383,9 +429,10 @@ def prop_trusted(prop, tops):
             out.append(f'{top_key(t)}: {n}')
         if getattr(t, 'trusted', False):
             out.append(f'{top_key(t)}: contract trusted (body not verified)')
-    mod = sys.modules.get('contracts.' + next((os.path.basename(f)[:-3] for f in glob.glob(os.path.join(HERE, 'contracts', f'{prop.lower()}_*.py'))), ''), None)
-    if mod is not None:
-        out.extend(getattr(mod, 'ENVIRONMENT', []))
+    for f in sorted(glob.glob(os.path.join(HERE, 'contracts', f'{prop.lower()}_*.py'))):
+        mod = sys.modules.get('contracts.' + os.path.basename(f)[:-3])
+        if mod is not None:
+            out.extend(x for x in getattr(mod, 'ENVIRONMENT', []) if x not in out)
     return out
 
 
